@@ -554,12 +554,17 @@ class BaseProject(object, metaclass=ABCMeta):
 
         # 3. Allocate ready tasks to free workers and facilities
         target_workplace_id_list = [wp.ID for wp in self.organization.workplace_list]
+        # components which have already been placed in this step (a component is placed
+        # at most once per step even if several of its tasks are ready)
+        placed_component_list_in_this_step = []
 
         for task in ready_and_working_task_list:
             if task.target_component is not None:
                 # 3-1. Set target component of workplace if target component is ready
                 component = task.target_component
-                if component.is_ready():
+                if component.is_ready() and not any(
+                    component is c for c in placed_component_list_in_this_step
+                ):
                     candidate_workplace_list = task.allocated_workplace_list
                     candidate_workplace_list = sort_workplace_list(
                         candidate_workplace_list,
@@ -607,6 +612,7 @@ class BaseProject(object, metaclass=ABCMeta):
                                 # 3-1-1-2. regsister
                                 component.set_placed_workplace(workplace)
                                 workplace.set_placed_component(component)
+                                placed_component_list_in_this_step.append(component)
                                 break
 
             if not task.auto_task:
